@@ -484,6 +484,26 @@ Theorem C10_first_line : forall ts w root e,
 Proof. exact program_first_line. Qed.
 Print Assumptions C10_first_line.
 
+(* the end of the output: the formatted program is empty, or a single line feed, or ends in a byte that is neither blank nor line
+   feed followed by at most one line feed - no blank lines and no blanks at the end (hypotheses as C10_shape; the run that ends the
+   file is formatted with at_end: C10_run_end_of_file; what precedes it ends in a code token) *)
+Theorem C10_no_blank_lines_at_end : forall ts w root e,
+  lua_parse ts = Ok (root, e) -> consumed ts e = true -> writable ts root = true -> codes_tidy ts = true ->
+  exists out, writer_text (fmt_spaces w) ts (view root) = Ok out /\
+    (out = [] \/ out = [NL] \/ exists a c, is_sp_nl c = false /\ (out = a ++ [c] \/ out = a ++ [c; NL])).
+Proof. exact program_end. Qed.
+Print Assumptions C10_no_blank_lines_at_end.
+
+(* non-vacuity: `x=1` followed by two blank lines (one with blanks) and blanks without a final newline is written `x=1` + line feed *)
+Example C10_end_nonvacuous :
+  let ts := [mkTok CName 0 [120] [120]; mkTok CSymbol 0 [61] [61]; mkTok CNumber 0 [49] [49]; mkTok CNewline 0 [10] [10];
+             mkTok CNewline 0 [10] [10]; mkTok CSpace 0 [32; 32] [32; 32]; mkTok CNewline 0 [10] [10]; mkTok CSpace 0 [32; 9] [32; 9]] in
+  exists root e, lua_parse ts = Ok (root, e) /\ consumed ts e = true /\ writable ts root = true /\ codes_tidy ts = true /\
+    writer_text (fmt_spaces 2) ts (view root) = Ok [120; 61; 49; NL].
+Proof.
+  cbv zeta. eexists _, _. split; [vm_compute; reflexivity|]. repeat (split; [vm_compute; reflexivity|]). vm_compute. reflexivity.
+Qed.
+
 From PV Require Import Spec.FmtShape Spec.ReindentSpec Proofs.AstWriterReindent.
 
 (* ---------- luafmt's output as a function of the token list; re-indentation invariance of whole programs ----------
